@@ -713,13 +713,12 @@ class Image:
 
         # ! ---- Extract dimensions and new origin from voxels
 
-        origin_voxel = [0 if sl.start is None else sl.start for sl in voxels]
+        # Interpret the slices as numpy does (open ends, clipping at the image border)
+        bounds = [sl.indices(self.num_voxels[i]) for i, sl in enumerate(voxels)]
+        origin_voxel = [start for start, _, _ in bounds]
         origin = self.coordinatesystem.coordinate(origin_voxel)
 
-        opposite_voxel = [
-            self.num_voxels[i] if sl.stop is None else sl.stop
-            for i, sl in enumerate(voxels)
-        ]
+        opposite_voxel = [stop for _, stop, _ in bounds]
         opposite = self.coordinatesystem.coordinate(opposite_voxel)
 
         cartesian_dimensions = np.absolute(opposite - origin)
